@@ -198,7 +198,7 @@ def gen_top(rng):
     if rng.random() < 0.5: k.append(N("rtx1", "i64", "leaf", str(rng.choice([-2**63, -1, 0, 2**53 + 1, 2**63 - 1])).encode(), meta=meta_of(rng)))
     if rng.random() < 0.5: k.append(N("rtx1", "u64", "leaf", str(rng.choice([0, 1, 2**53 + 1, 2**64 - 1])).encode()))
     if rng.random() < 0.4: k.append(N("rtx1", "i16", "leaf", str(rng.choice([-32768, -1, 0, 32767])).encode(), jt="num", meta=meta_of(rng)))
-    if rng.random() < 0.5: k.append(N("rtx1", "d", "leaf", rng.choice([b"0.0", b"-0.01", b"1.5", b"92233720368547758.07", b"-92233720368547758.08", b"3.14"]), meta=meta_of(rng)))
+    if rng.random() < 0.5: k.append(N("rtx1", "d", "leaf", dec64_canon(rng.choice(DEC64_INTS), 2), meta=meta_of(rng)))
     if rng.random() < 0.4: k.append(N("rtx1", "b", "leaf", rng.choice([b"true", b"false"]), jt="bool", meta=meta_of(rng)))
     if rng.random() < 0.4: k.append(N("rtx1", "e", "leaf", b"", jt="empty", meta=meta_of(rng)))
     if rng.random() < 0.4: k.append(N("rtx1", "bits", "leaf", rng.choice([b"", b"x", b"x z", b"x y z", b"y"])))
@@ -293,6 +293,19 @@ def f17_cells_only(matrix):
                     return False        # F17 loses an instance (cell '!'); a rejected own output ('R') is something else
                 k += 1
     return True
+
+
+# decimal64 with fraction-digits 2 as the stored integer: zero integer part with every fraction shape and sign, boundaries
+DEC64_INTS = [0, 1, -1, 5, -5, 9, -9, 10, -10, 50, -50, 99, -99, 100, -100, 101, -101, 105, -105, 150, -150, 314, -314, 1000, -1000,
+              12345, -12345, 9223372036854775807, -9223372036854775808, 9223372036854775800, -9223372036854775800]
+
+
+def dec64_canon(n, fd):
+    """RFC 7950 sec. 9.3.2 canonical form: at least one digit on both sides of the point, no other leading / trailing zeros"""
+    neg, a = n < 0, abs(n)
+    ip, fp = divmod(a, 10 ** fd)
+    f = ("%0*d" % (fd, fp)).rstrip("0") or "0"
+    return ("%s%d.%s" % ("-" if neg else "", ip, f)).encode()
 
 
 def run_rtx(cx, laws=("roundtrip", "independent")):
